@@ -40,8 +40,19 @@ def _event_trigger(ev, *_a, **_k):
     return deco
 
 
+CTXMAP = {}
+
+
+class _Pyscript:
+    @staticmethod
+    def get_global_ctx():
+        # the global context of the code that is running = the module whose globals the calling frame uses
+        return CTXMAP.get(sys._getframe(1).f_globals.get("__name__"), "?")  # pylint: disable=protected-access
+
+
 builtins.task = _Task
 builtins.event_trigger = _event_trigger
+builtins.pyscript = _Pyscript
 
 
 def dest(rel):
@@ -58,6 +69,8 @@ def plain(v, ctxmap):
         return ["i", v]
     if v is None:
         return ["n"]
+    if isinstance(v, str):
+        return ["s", v]
     if isinstance(v, list) and all(isinstance(x, str) for x in v):
         return ["l", list(v)]
     if isinstance(v, types.ModuleType):
@@ -76,6 +89,8 @@ def keep_name(k):
 def run_case(case):
     tmp = tempfile.mkdtemp(prefix="pv_c11o_", dir="/var/tmp")
     del REG[:]
+    CTXMAP.clear()
+    CTXMAP.update(case["ctxmap"])
     try:
         for rel, src in case["files"].items():
             p = os.path.join(tmp, dest(rel))
